@@ -522,11 +522,12 @@ class InProtocolBase(ProtocolMixin):
                 raise ValidationError(e.message, "%s")
 
     def duration_from_unicode(self, cls, string):
-        duration = _duration_re.match(string).groupdict(0)
-        if duration is None:
+        match = _duration_re.match(string)
+        if match is None:
             raise ValidationError(string,
                 "Time data '%%s' does not match regex '%s'" %
                                                         (_duration_re.pattern,))
+        duration = match.groupdict(0)
 
         days = int(duration['days'])
         days += int(duration['months']) * 30
